@@ -76,6 +76,12 @@ DecodeExpect(bytes) ==
 WhyProp(why) == IF why = "armor" THEN "C03" ELSE IF why = "unsupported" THEN "C09"
                 ELSE IF why = "short" THEN "C14" ELSE "C18"
 
+\* a message was produced where only an error is acceptable: if it is not even of the kind the six
+\* type bits select, that contradicts C09 as well
+WrongKind(px, msgseq) ==
+    IF msgseq # << >> /\ msgseq[1].v # VariantOf(px.dm.t)
+    THEN V("C09", "type " \o ToString(px.dm.t) \o " decoded as " \o msgseq[1].v) ELSE {}
+
 \* violations of a decoded message observation `msgseq` (<<>> or <<m>>) against expectation px
 MsgJudge(px, msgseq) ==
     IF msgseq = << >> THEN V("C07", "message absent although decoding was requested")
@@ -97,7 +103,11 @@ JudgeLine(e, st) ==
         classViol ==
             IF e.r = "panic" THEN V("C01", "panic: " \o e.pmsg)
             ELSE IF o.class = "reject_form"
-            THEN IF obsAcc THEN V("C08", "ill-formed line accepted (" \o ln.why \o ")") ELSE {}
+            THEN IF obsAcc
+                 THEN V("C08", "ill-formed line accepted (" \o ln.why \o ")")
+                      \* a transmitted checksum value above 0xFF can equal no XOR of bytes: also a breach of the gate
+                      \cup (IF ln.why = "hexrange" THEN V("C02", "line accepted although the transmitted checksum value exceeds 0xFF") ELSE {})
+                 ELSE {}
             ELSE IF o.class = "reject_checksum"
             THEN IF e.r = "err_checksum"
                  THEN IF e.ck = <<ln.ckGiven, ln.ckComputed>> THEN {}
@@ -119,6 +129,7 @@ JudgeLine(e, st) ==
             ELSE IF e.r # r0 THEN V("C05", "expected " \o r0 \o " got " \o e.r)
             ELSE IF needDecode /\ px.must = "err"
             THEN V(WhyProp(px.why), "payload that must be rejected was decoded (" \o px.why \o ")")
+                 \cup WrongKind(px, e.s.msg)
             ELSE {}
         \* ---- field level (only when accepted as expected)
         s == e.s
@@ -139,7 +150,8 @@ JudgeLine(e, st) ==
                   THEN {} ELSE V("C07", "has_more / is_fragment"))
             \cup (IF s.data = o.data THEN {}
                   ELSE IF o.class = "deliver"
-                       THEN {<<"C05", "reassembled payload">>, <<"C06", "reassembled payload">>}
+                       THEN {<<"C05", "reassembled payload">>, <<"C06", "reassembled payload">>,
+                             <<"C07", "payload of a completed group is not the concatenation of its fragments">>}
                        ELSE IF o.class = "single" THEN V("C07", "payload")
                        ELSE {<<"C07", "payload">>, <<"C05", "fragment payload">>})
             \cup (IF mtOk \/ mtDev THEN {} ELSE V("C19", "sentence message type"))
@@ -209,6 +221,7 @@ JudgeDecode(e) ==
         THEN IF px.must = "ok" THEN {<<"C14", "decodable payload rejected">>, <<"C04", "decodable payload rejected">>}
              ELSE {}
         ELSE IF px.must = "err" THEN V(WhyProp(px.why), "payload that must be rejected was decoded (" \o px.why \o ")")
+                                     \cup WrongKind(px, e.msg)
         ELSE MsgJudge(px, e.msg)
                 \cup (IF e.name = NameOf(px.dm.t) THEN {} ELSE V("X", "name()"))
 DecodeDevs(e) ==
